@@ -374,7 +374,9 @@ def step (H : Hashes) (dirLen : Nat) (s : State) : Op → State × Resp
     | .error e => (s, .err e)
     | .ok (bd, p) =>
       match s.node bd p with
-      | none => (s, .err .NoSuchKey)
+      | none =>
+        -- 391a940: `File::open` fails: `not_found_error(bucket)` tells a missing bucket from a missing key
+        if alHas bd s.buckets then (s, .err .NoSuchKey) else (s, .err .NoSuchBucket)
       | some .dir =>
         -- `File::open` succeeds on a directory; without a range the first read (`get_md5_sum`) fails
         match range with
@@ -456,7 +458,9 @@ def step (H : Hashes) (dirLen : Nat) (s : State) : Op → State × Resp
       | .error e => (s, .err e)
       | .ok (dbd, dp) =>
         match s.node sbd sp with
-        | none => (s, .err .NoSuchKey)
+        | none =>
+          -- 391a940: `!src_path.exists()`: `not_found_error(source bucket)`
+          if alHas sbd s.buckets then (s, .err .NoSuchKey) else (s, .err .NoSuchBucket)
         | some sn =>
           match s.tree dbd with
           | none => (s, .err .NoSuchBucket)
@@ -538,7 +542,9 @@ def step (H : Hashes) (dirLen : Nat) (s : State) : Op → State × Resp
         | .error e => (s, .err e)
         | .ok (sbd, sp) =>
           match s.node sbd sp with
-          | none => (s, .err .NoSuchKey)
+          | none =>
+            -- 391a940: `File::open` fails: `not_found_error(source bucket)`
+            if alHas sbd s.buckets then (s, .err .NoSuchKey) else (s, .err .NoSuchBucket)
           | some .dir => (s, .unmodelled)
           | some (.file c) =>
             match copyRange range c.length with
